@@ -189,6 +189,59 @@ def process_calls(run):
     return n
 
 
+QB_DECL = 'int g; double dv; double w[3]; int iw() { g++; return g; } int ir() { return g; } double dw(int i) { g++; return w[i]; } double dr(int i) { return w[i] + dv; }\n'
+# (body, value kind, writes)
+QB_BODIES = [('(g = q)', 'int', True), ('g++', 'int', True), ('iw()', 'int', True), ('(q > 0 ? iw() : 0)', 'int', True), ('ir() + q', 'int', False), ('q * 2', 'int', False),
+             ('(dv = w[q])', 'double', True), ('dw(q)', 'double', True), ('(dv += 1.0)', 'double', True), ('w[q] + dw(q)', 'double', True), ('(q > 0 ? dw(q) : 0.5)', 'double', True),
+             ('dr(q)', 'double', False), ('w[q] * 2.0', 'double', False)]
+
+
+def quantified_bodies(run):
+    """the body of forall / exists / sum placed where no enclosing whole-expression check covers it (an edge update, a statement, a return value or a local initialiser
+    of a function): the quantifier's own check is the only one; bodies of integer and of floating-point value"""
+    j, cases = vlib.Job(), []
+    for body, kind, writes in QB_BODIES:
+        for q in ('forall', 'exists', 'sum'):
+            if q != 'sum' and kind == 'double':
+                e, res = '%s (q : int[0,2]) (%s) > 0.0' % (q, body), 'bool'
+            elif q != 'sum':
+                e, res = '%s (q : int[0,2]) (%s) >= 0' % (q, body), 'bool'
+            else:
+                e, res = 'sum (q : int[0,2]) (%s)' % body, kind
+            tgt = dict(bool='bq', int='ti', double='td')[res]
+            for place in ('update', 'statement', 'return', 'localinit'):
+                fun = ''
+                upd = 'bq = true'
+                if place == 'update':
+                    upd = '%s = %s' % (tgt, e)
+                elif place == 'statement':
+                    fun = 'void fs() { %s = %s; }' % (tgt, e)
+                elif place == 'return':
+                    fun = '%s fs() { return %s; }' % (res, e)
+                else:
+                    fun = 'void fs() { %s z = %s; }' % (res, e)
+                xml = ('<?xml version="1.0" encoding="utf-8"?><nta><declaration>%s</declaration><template><name>T</name><location id="id0"/><location id="id1"/><init ref="id0"/>'
+                       '<transition><source ref="id0"/><target ref="id1"/><label kind="assignment">%s</label></transition></template><system>system T;</system></nta>'
+                       % (docgen.XESC(QB_DECL + 'bool bq; int ti; double td;\n' + fun), docgen.XESC(upd)))
+                cases.append((q, body, kind, place, writes, xml))
+                j.case('b%d' % (len(cases) - 1), fork=True).model('xml', xml).dump('errors').end()
+    rr = vlib.run_jobs(j)
+    n = 0
+    for k, (q, body, kind, place, writes, xml) in enumerate(cases):
+        c = rr['b%d' % k]
+        if c['status'] != 'ok':
+            run.fail('type checker crashed on a quantified body', dict(quantifier=q, body=body, place=place, xml=xml, status=c['status']), shape='crash:quantified-body')
+            continue
+        errs = [l.split('msg="')[1].split('"')[0] for l in c['cmds'][1][2] if l.startswith('error')]
+        n += 1
+        if writes and not errs:
+            run.fail('the body %r of a %s (%s-valued) in a %s is accepted although it can write a variable' % (body, q, kind, place), dict(quantifier=q, body=body, place=place, xml=xml),
+                     shape='accepts-write:quantified-body:%s:%s:%s' % (q, kind, place))
+        if not writes and errs:
+            run.tie_broken('side-effect-free quantified body rejected', dict(quantifier=q, body=body, place=place, errors=errs[:2]))
+    return n
+
+
 def check(run):
     thorough = run.tier == 'thorough'
     rng = run.rng
@@ -246,7 +299,7 @@ def check(run):
             nacc += 1
     if cmism:
         run.tie_broken('side-effect-free twins must be accepted (model says nothing is written)', cmism[:6] + [dict(total=len(cmism))])
-    npc = process_calls(run)
+    npc = process_calls(run) + quantified_bodies(run)
     run.cov.update(process_call_queries=npc, evaluations=nfun + ncase + npc, distinct_nontrivial=nwriters + ncase + npc, traces_validated_against_impl=nfun + ncase + npc,
                    rule='(1) seeded random programs (2-6 functions, all statement forms, value / reference / const-reference parameters, calls to earlier functions): the changes and depends sets the type checker stores per '
                         'function vs the extracted Coq summaries; (2) %d side-effect-free contexts x %d write forms (direct, in every statement form, initialiser, return value, array element, struct field, inline-if target, '
